@@ -29,6 +29,13 @@ NOINL void e_SGal3_adj(const SGal3d* X, double* out){ auto A = X->adj(); out[0]=
 NOINL void e_SE3_compose_J(const SE3d* X, const SE3d* Y, double* out){ SE3d::Jacobian Ja,Jb; SE3d Z = X->compose(*Y,Ja,Jb); out[0]=Z.coeffs()(0)+Ja(0,0)+Jb(0,0); }
 NOINL void e_SE3_rminus_J(const SE3d* X, const SE3d* Y, double* out){ SE3d::Jacobian Ja,Jb; SE3Tangentd t = X->rminus(*Y,Ja,Jb); out[0]=t.coeffs()(0)+Ja(0,0)+Jb(0,0); }
 NOINL void e_SE2_exp_J(const SE2Tangentd* t, double* out){ SE2d::Jacobian J; SE2d X = t->exp(J); out[0]=X.x()+J(0,0); }
+// tangent-side const API of the composite groups: smallAdj / bracket / hat / rjac / ljac / inverses
+#define TGT(NAME, T) NOINL void e_##NAME##_smallAdj(const T* t, double* out){ auto A = t->smallAdj(); out[0]=A(0,0); } \
+  NOINL void e_##NAME##_bracket(const T* a, const T* b, double* out){ T c = a->bracket(*b); out[0]=c.coeffs()(0); } \
+  NOINL void e_##NAME##_hat(const T* t, double* out){ auto H = t->hat(); out[0]=H(0,0); }
+TGT(SE3Tangent, SE3Tangentd) TGT(SE2Tangent, SE2Tangentd) TGT(SO3Tangent, SO3Tangentd) TGT(SE_2_3Tangent, SE_2_3Tangentd) TGT(SGal3Tangent, SGal3Tangentd)
+NOINL void e_SE3Tangent_jacs(const SE3Tangentd* t, double* out){ out[0]=t->rjac()(0,0)+t->ljac()(0,0)+t->rjacinv()(0,0)+t->ljacinv()(0,0); }
+NOINL void e_SO3Tangent_jacs(const SO3Tangentd* t, double* out){ out[0]=t->rjac()(0,0)+t->ljac()(0,0)+t->rjacinv()(0,0)+t->ljacinv()(0,0); }
 // generator index dispatch (C07): one wrapper per tangent type; irx encodes the callee's CFG over 32-bit bit-vectors
 #define GEN(NAME, T) NOINL void g_##NAME(int i, double* out){ auto G = T::Generator(i); out[0]=G(0,0); }
 GEN(SO2, SO2Tangentd) GEN(SE2, SE2Tangentd) GEN(SO3, SO3Tangentd) GEN(SE3, SE3Tangentd) GEN(SE_2_3, SE_2_3Tangentd) GEN(SGal3, SGal3Tangentd) GEN(R3, R3Tangentd) GEN(Bundle, Btd)
